@@ -91,6 +91,7 @@ class LoopModel:
         if bind:
             for (name, ident), val in bind.items():
                 st = st.set((owner, ident), val)
+        st = self._outer_constants(st, owner)
         stmts = self.block["stmts"]
         acc = [st]
         for i, stmt in enumerate(stmts):
@@ -118,6 +119,53 @@ class LoopModel:
             else:
                 out.append((symex.UNIT, s))
         return out
+
+    def _outer_constants(self, st, owner):
+        """immutable integer bindings made before the loop (`let n = prog.len() / INSN_SIZE;`) keep their defining
+        expression inside the iteration instead of becoming anonymous symbols"""
+        if getattr(self, "_outer", None) is None:
+            self._outer = []
+            fn = self.F.fns[self.fn]
+            node = fn["thir"]["body"]
+            target = self.match.node
+            guard = 0
+            while node is not None and guard < 40:
+                guard += 1
+                b = strip(node)
+                if b.get("k") == "loop":
+                    break
+                nxt = None
+                if b.get("k") == "block":
+                    for stmt in b["stmts"]:
+                        inner = stmt.get("e") or stmt.get("init") or {}
+                        if any(x is target for x in walk(inner)):
+                            nxt = inner
+                            break
+                        if stmt["k"] == "let" and stmt.get("init") and stmt["pat"].get("k") == "bind" and "Mut)" not in str(stmt["pat"].get("mode")) \
+                                and T.ty_info(stmt["pat"].get("ty") or "") and not any(x.get("k") in ("loop", "closure", "match", "if") for x in walk(stmt["init"])):
+                            self._outer.append(stmt)
+                    if nxt is None and b.get("tail") is not None and any(x is target for x in walk(b["tail"])):
+                        nxt = b["tail"]
+                else:
+                    for key in ("e", "body", "tail", "t", "then", "scrut"):
+                        c = b.get(key)
+                        if isinstance(c, dict) and any(x is target for x in walk(c)):
+                            nxt = c
+                            break
+                    if nxt is None:
+                        for a in b.get("arms", []) if isinstance(b.get("arms"), list) else []:
+                            if any(x is target for x in walk(a.get("body") or {})):
+                                nxt = a["body"]
+                                break
+                node = nxt
+        for stmt in self._outer:
+            try:
+                vals = [(v, s2) for v, s2 in self.ev.ev(stmt["init"], st, self.fn) if s2.feasible and s2.exit is None]
+            except Exception:
+                continue
+            if len(vals) == 1 and symex._w(vals[0][0]) and not vals[0][1].effects[len(st.effects):]:
+                st = st.set((owner, stmt["pat"]["id"]), vals[0][0])
+        return st
 
     def _force(self, s, v, owner):
         vid, vname, fld = self.scrut_base()
@@ -282,20 +330,44 @@ def counting_loop(F, ev, path, st0):
     if len(rng) != 1:
         return None, "loop is neither `while counter < bound` nor a single `for` over a range"
     vals = ev.ev(rng[0]["args"][0], st, path)
-    if not (len(vals) == 1 and isinstance(vals[0][0], tuple) and vals[0][0][0] == "struct" and vals[0][0][1].endswith("ops::Range")):
-        return None, "the `for` does not iterate over a plain range a..b"
-    start, bound = symex.sfield(vals[0][0], "start"), symex.sfield(vals[0][0], "end")
+    stages = ()
+    it0 = vals[0][0] if len(vals) == 1 else None
+    if isinstance(it0, tuple) and it0 and it0[0] == "iters":
+        stages, it0 = it0[2], it0[1]
+    if not (isinstance(it0, tuple) and it0 and it0[0] == "struct" and it0[1].endswith("ops::Range")):
+        return None, "the `for` does not iterate over a plain range a..b (possibly through map / filter)"
+    start, bound = symex.sfield(it0, "start"), symex.sfield(it0, "end")
     arms = [a for n in walk(loop["body"]) if n.get("k") == "match" for a in n["arms"] if a["pat"].get("k") == "variant" and a["pat"].get("variant") == "Some"]
     if len(arms) != 1:
         return None, "loop arm not found"
-    bids = [x["id"] for x in walk(arms[0]["pat"]) if x.get("k") == "bind"]
-    s1 = vals[0][1]
-    if len(bids) == 1:
-        s1 = s1.set((owner, bids[0]), I)
-    elif bids:
-        return None, "loop pattern binds several names"
-    outs = [(v, s2) for v, s2 in ev.ev(arms[0]["body"], s1, path) if s2.feasible]
-    return {"start": start, "bound": bound, "I": I, "states": [s2 for _v, s2 in outs], "step_ok": True, "pre": st}, None
+    sub = [sp["pat"] for sp in arms[0]["pat"].get("subs", [])]
+    if len(sub) != 1:
+        return None, "loop pattern not understood"
+    # the element of this iteration: the index pushed through the adaptor stages
+    elems, skipped = [(I, vals[0][1])], []
+    for kind, f in stages:
+        nxt = []
+        for x, sx in elems:
+            r = symex._apply(ev, f, [x], rng[0], sx, None)
+            if r is None:
+                return None, "an adaptor closure is not evaluable"
+            for rv, s2 in r:
+                if kind == "map":
+                    nxt.append((rv, s2))
+                else:
+                    c = ev.as_cond(rv) if hasattr(ev, "as_cond") else rv
+                    if c != T.FALSE:
+                        nxt.append((x, s2.assume(c)))
+                    if c != T.TRUE:
+                        skipped.append(s2.assume(T.lnot(c)))
+        elems = nxt
+    outs = []
+    for x, sx in elems:
+        r = ev.bind_pat(sub[0], x, sx, path)
+        if r is None or r[0] != T.TRUE:
+            return None, "loop pattern does not bind the element"
+        outs.extend(s2 for _v, s2 in ev.ev(arms[0]["body"], r[1], path) if s2.feasible)
+    return {"start": start, "bound": bound, "I": I, "states": outs + [s2 for s2 in skipped if s2.feasible], "step_ok": True, "pre": st}, None
 
 
 def _parent_match(body, call):
